@@ -853,6 +853,16 @@ def check_c10(rep):
             outs_ = [''.join(map(chr, x)) for x in (got[0].get('ok') or [[], [], []])] + \
                     [''.join(map(chr, g.get('ok') or [])) for g in got[1:]]
             key = 'cases=%s,ignore_case=%s' % ('/'.join('+'.join(u(x) for x in c_) for c_ in cases_), str(st_['ignore_case']).lower())
+            if len(set(outs_)) == 1:
+                # the lists differ but so small an input prints the same pattern (classes are sorted when printed): make the
+                # order of the list observable by giving every test case its own suffix, so that the output is an alternation
+                amp = [c_ + [0x78, 0x61 + i] for i, c_ in enumerate(cases_)]
+                got2 = env.eval([{'op': 'build_twice', 'cases': amp, 'settings': st_}, {'op': 'build', 'cases': amp[::-1], 'settings': st_},
+                                 {'op': 'build', 'cases': amp + [amp[0]], 'settings': st_}])
+                outs2 = [''.join(map(chr, x)) for x in (got2[0].get('ok') or [[], [], []])] + [''.join(map(chr, g.get('ok') or [])) for g in got2[1:]]
+                if len(set(outs2)) > 1:
+                    cases_, outs_ = amp, outs2
+                    key += ',amplified'
             what = 'build() = %s, second build() on the same builder = %s, on a clone = %s, reversed input = %s, with a duplicate = %s' % tuple(json.dumps(x) for x in outs_)
             classify(rep, known, po.qid, key, what, {'inputs': {'cases': cases_, 'settings': st_}, 'observed': outs_}, len(set(outs_)) > 1)
     kani.prepare_lib_crate()
@@ -1601,9 +1611,10 @@ def check_c15(rep):
     rep.statement = ('kernel "per-component rendering": for each of the 18 Component variants and all field values (Booleans, every '
                      'u32, payload strings copied through), and for Display of a Grapheme (one unit of 1-2 code points or a class token, '
                      'any min/max, capture/verbose flags), the highlighted rendering minus its SGR sequences (ESC [ digits;digits m / '
-                     'ESC [ 0 m) equals the plain rendering, and highlighting adds balanced start/reset codes.')
-    rep.outside = ['format.rs (alternations, character classes, concatenations) and Display for RegExp / indent_regexp (colour-aware '
-                   'indentation): they call to_repr(is_output_colorized) at every site, which is not decided here',
+                     'ESC [ 0 m) equals the plain rendering, and highlighting adds balanced start/reset codes; and END TO END on small inputs (Q15t): the whole of '
+                     'build() is executed with and without highlighting -- RegExp::from once, Display for RegExp twice, incl. format.rs and the colour-aware '
+                     'indent_regexp -- and the highlighted output minus SGR codes equals the plain output.')
+    rep.outside = ['format.rs / Display for RegExp / indent_regexp beyond the small end-to-end inputs of Q15t (2-3 test cases of 1-2 letters, a few settings combinations)',
                    'payloads containing an ESC character (a test case with a literal SGR sequence)',
                    'nested repetitions beyond one level; counts >= 100 in the nested shape']
     rep.assumptions += ['payload strings contain no ESC (U+001B)']
@@ -1616,6 +1627,27 @@ def check_c15(rep):
     shapes = ['unit1', 'class-token'] + (['unit2', 'nested'] if rep.tier == 'thorough' else [])
     for sh in shapes:
         obs.append(ob_add(rep, Q.q15g(env.ctx, sh)))
+    # end to end on small inputs: the whole of build() with and without highlighting (incl. the colour-aware indentation)
+    smap = {'verbose': 'verbose', 'capture': 'capture_groups', 'no_start_anchor': 'no_start_anchor', 'no_end_anchor': 'no_end_anchor',
+            'ignore_case': 'ignore_case', 'repetitions': 'repetitions'}
+    tspecs = [((2, 1), {}), ((2, 1), {'verbose': True, 'ignore_case': True, 'no_start_anchor': True}), ((2, 1), {'verbose': True, 'capture': True})]
+    if rep.tier == 'thorough':
+        tspecs += [((2, 1), {'verbose': True}), ((2, 1), {'verbose': True, 'no_end_anchor': True}), ((2, 1), {'ignore_case': True}),
+                   ((1, 1), {'verbose': True, 'ignore_case': True}), ((2, 2), {'verbose': True, 'no_start_anchor': True}), ((3,), {'repetitions': True, 'verbose': True})]
+    for lens, stg in tspecs:
+        o = ob_add(rep, Q.q15t(env.ctx, lens, stg))
+        obs.append(o)
+        if o.result != 'sat':
+            continue
+        for m in o.verdict.models:
+            cases_ = [[m['s%d_%d' % (i, j)] for j in range(n)] for i, n in enumerate(lens)]
+            ns = {smap[k]: True for k, v in stg.items() if v}
+            got = env.eval([{'op': 'build', 'cases': cases_, 'settings': dict(ns, colorize=True)}, {'op': 'build', 'cases': cases_, 'settings': ns}])
+            a_, b_ = py_strip_sgr(got[0].get('ok') or []), got[1].get('ok') or []
+            key = 'cases=%s,%s' % ('|'.join('+'.join(u(x) for x in c_) for c_ in cases_), ','.join(sorted(ns)) or 'default')
+            what = 'highlighted output minus SGR codes %s differs from the plain output %s' % (json.dumps(''.join(map(chr, a_))), json.dumps(''.join(map(chr, b_))))
+            classify(rep, known, 'Q15t', key, what, {'inputs': {'what': 'pipeline', 'cases': cases_, 'settings': ns}, 'observed': got}, a_ != b_)
+    obs = [o for o in obs if not o.qid.startswith('Q15t')]
     # translator validation: concrete renderings through the encoding and the real code
     cases = []
     rnd = random.Random(rep.seed + 15)
@@ -1676,6 +1708,11 @@ def py_strip_sgr(cps_):
 def replay_c15(env, rec):
     inp = dict(rec['inputs'])
     what = inp.pop('what')
+    if what == 'pipeline':
+        got = env.eval([{'op': 'build', 'cases': inp['cases'], 'settings': dict(inp['settings'], colorize=True)},
+                        {'op': 'build', 'cases': inp['cases'], 'settings': inp['settings']}])
+        a_, b_ = py_strip_sgr(got[0].get('ok') or []), got[1].get('ok') or []
+        return a_ != b_, 'stripped %s vs plain %s' % (json.dumps(''.join(map(chr, a_))), json.dumps(''.join(map(chr, b_))))
     op = 'component' if what == 'component' else 'grapheme_display'
     got = env.eval([dict(inp, op=op, colored=True), dict(inp, op=op, colored=False)])
     bad = py_strip_sgr(got[0].get('ok') or []) != (got[1].get('ok') or [])
